@@ -1291,12 +1291,15 @@ class FortranWriter(LanguageWriter):
                     # We still may need to enforce precedence
                     if (isinstance(parent, UnaryOperation) or
                             (isinstance(parent, BinaryOperation) and
-                             parent.children[1] == node)):
+                             (parent.children[1] == node or
+                              fort_oper == "**"))):
                         # We need brackets to enforce precedence
                         # as a) a unary operator is performed
-                        # before a binary operator and b) floating
+                        # before a binary operator, b) floating
                         # point operations are not actually
-                        # associative due to rounding errors.
+                        # associative due to rounding errors and
+                        # c) exponentiation is right associative so
+                        # a left-hand operand (a**b)**c needs them too.
                         return f"({lhs} {fort_oper} {rhs})"
             return f"{lhs} {fort_oper} {rhs}"
         except KeyError as error:
